@@ -41,7 +41,7 @@ type c18Ref struct {
 
 // c18MaxN bounds the vector length the reference handles (fixed arrays keep the
 // enumeration free of heap allocations on the reference side).
-const c18MaxN = 8
+const c18MaxN = 16
 
 // c18TempFloor is the documented lower clip of the temperature ("temperature
 // clipping near 0"), as the float32 value the sampler holds.
